@@ -205,6 +205,7 @@ def apply_edits(s, edits):
 
 
 class Mutated(Sub):
+    ambient = True
     name = "mutated_valid_forms"
     n = {"quick": 40000, "thorough": 1500000}
     shards = {"quick": 6, "thorough": 16}
@@ -226,6 +227,7 @@ FOREIGN = ["|", ";", "_", "#", "*", "(", ")", "[", "]", "{", "}", "=", "~", "'",
 
 
 class SingleEdits(Sub):
+    ambient = True
     """every single-character edit of every seed form: the first ring of C17's quantifier, enumerated"""
     name = "single_edits_exhaustive"
     kind = "enum"
@@ -271,6 +273,7 @@ class SingleEdits(Sub):
 
 
 class RandomStrings(Sub):
+    ambient = True
     name = "random_strings"
     n = {"quick": 20000, "thorough": 600000}
     shards = {"quick": 3, "thorough": 8}
@@ -301,6 +304,7 @@ def foreign_case(draw):
 
 
 class StrictRejects(Sub):
+    ambient = True
     name = "strict_rejects"
     n = {"quick": 3000, "thorough": 50000}
     shards = {"quick": 1, "thorough": 4}
@@ -322,6 +326,7 @@ class StrictRejects(Sub):
 
 
 class Atheris(Sub):
+    ambient = True
     """coverage-guided campaign (libFuzzer through atheris) on the instrumented pure-Python stack + black-box on the compiled one"""
     name = "atheris_campaign"
     kind = "custom"
